@@ -56,6 +56,9 @@ pub mod verif;
 #[cfg(ordinals_ord_verif)]
 pub mod verif_storage;
 
+#[cfg(ordinals_ord_verif)]
+pub mod verif_fetch;
+
 #[cfg(test)]
 pub(crate) mod testing;
 
